@@ -41,7 +41,7 @@ Fixpoint obs_eqb (a b : obs) {struct a} : bool :=
   end.
 
 (* (index, model observation, implementation observation) *)
-Definition mismatches (cases : list (nat * obs * obs)) : list nat :=
+Definition mismatches (cases : list (N * obs * obs)) : list N :=
   map (fun c => fst (fst c))
       (filter (fun c => negb (obs_eqb (snd (fst c)) (snd c))) cases).
 
